@@ -8,7 +8,8 @@ units this engine contributes (unit ids are unique and start with `c.`); [] for 
     C02  src/chacha20.c:chacha20_core == RFC 8439 block function; src/raw_ocb.c L table (when registered)
     C09  in-place == out-of-place configurations of CTR_encrypt / chacha20_encrypt / CBC_encrypt / CBC_decrypt
     C12  <HASH>_pbkdf2_hmac_assist (SHA-224/256/384/512, SHA-1, MD5): T = U_1 xor ... xor U_c over all digest bytes
-    C17  memory-safety obligations of all of the above + whole-library scans alloc_checked / const_index
+    C17  ec_scalar_g_p256/p384/p521 (src/ec_ws.c): prot_g[i] / buffer indexing for every exp_size, callee contracts assumed;
+         memory-safety obligations of all of the above + whole-library scans alloc_checked / const_index
     C19  whole-library scan static_const
 """
 import importlib
@@ -25,6 +26,7 @@ MODULES = {
 PBKDF2 = ['contracts.c.pbkdf2_sha224', 'contracts.c.pbkdf2_sha256', 'contracts.c.pbkdf2_sha384', 'contracts.c.pbkdf2_sha512',
           'contracts.c.pbkdf2_sha1', 'contracts.c.pbkdf2_md5']
 CBC_FUNCS = ['CBC_start_operation', 'CBC_encrypt', 'CBC_decrypt']
+EC_WS = ['contracts.c.ec_ws_p256', 'contracts.c.ec_ws_p384', 'contracts.c.ec_ws_p521']
 SCAN_CHUNKS = 8
 
 
@@ -73,6 +75,9 @@ def units(prop, tier):
                 us += U.c_units(prop, MODULES[m], kinds='safety')
         for m in PBKDF2:
             us += U.c_units(prop, m, kinds='safety')
+        # fixed-base scalar multiplication: table indexing for every scalar length (invariants included: only C17 has them)
+        for m in EC_WS:
+            us += U.c_units(prop, m)
         us += U.scan_units(prop, 'alloc_checked', SCAN_CHUNKS)
         us += U.scan_units(prop, 'const_index', SCAN_CHUNKS)
     elif prop == 'C19':
